@@ -897,9 +897,9 @@ static void checkC21(Ctx& c, long idx, Rng& r) {
         //    shrink, converged / projected or not;
         //  * CPodes hands back a state that CPODES itself interpolated (report time in normal mode, tHigh after a root
         //    return, scheduled-event time) and that is returned as a non-interpolated trajectory state;
-        //  * CPodes/Adams step sizes collapsing (< 1e-6) on a model that needs projection.
+        //  * CPodes/Adams step sizes collapsing (< 1e-4) on a model that needs projection.
         const bool cpInterp = ikIsCPodes(integ) && !interpolated && (kind == SK_Report || kind == SK_EventAfter || kind == SK_Scheduled);
-        const bool collapsing = integ == IK_CPAdams && ig.getPreviousStepSizeTaken() < 1e-6;
+        const bool collapsing = integ == IK_CPAdams && ig.getPreviousStepSizeTaken() < 1e-4;   // healthy steps here are 1e-3..1e-1
         auto keyOf = [&](const char* cls) {
             if (integ == IK_SEE) return std::string("forced-step-size:AbstractIntegratorRep:SemiExplicitEuler");
             if (cpInterp) return std::string("cpodes-internal-interpolant:") + in + ":" + skName(kind);
